@@ -37,6 +37,20 @@ type SliceAlt struct {
 	G   *Term
 	Obj *Object // Obj.val is *ArrayV
 	Off int
+	Cap int // capacity limit from a 3-index slice expression, relative to Off; 0 = the physical array's
+}
+
+// room is the capacity of the alternative: elements from Off to the end of the backing
+// array, cut down by a 3-index limit.
+func (a SliceAlt) room() int {
+	n := len(a.Obj.val.(*ArrayV).E) - a.Off
+	if a.Cap > 0 && a.Cap < n {
+		return a.Cap
+	}
+	if a.Cap < 0 {
+		return 0
+	}
+	return n
 }
 type SliceV struct {
 	Alts []SliceAlt
@@ -253,7 +267,7 @@ func mergeValue(c *Term, a, b Value) Value {
 		for _, al := range x.Alts {
 			g := And(c, al.G)
 			if !g.IsFalse() {
-				r.Alts = append(r.Alts, SliceAlt{g, al.Obj, al.Off})
+				r.Alts = append(r.Alts, SliceAlt{g, al.Obj, al.Off, al.Cap})
 			}
 		}
 	outerS:
@@ -263,12 +277,12 @@ func mergeValue(c *Term, a, b Value) Value {
 				continue
 			}
 			for i := range r.Alts {
-				if r.Alts[i].Obj == al.Obj && r.Alts[i].Off == al.Off {
+				if r.Alts[i].Obj == al.Obj && r.Alts[i].Off == al.Off && r.Alts[i].Cap == al.Cap {
 					r.Alts[i].G = Or(r.Alts[i].G, g)
 					continue outerS
 				}
 			}
-			r.Alts = append(r.Alts, SliceAlt{g, al.Obj, al.Off})
+			r.Alts = append(r.Alts, SliceAlt{g, al.Obj, al.Off, al.Cap})
 		}
 		return r
 	case *MapV:
